@@ -55,6 +55,7 @@ func newTranslator(p *packages.Package) *translator {
 			t.funcs[name] = fd
 		}
 	}
+	t.registerVarFuncs() // tracetargets.go: func literals in the composite literal of a package variable, as "var.field"
 	return t
 }
 
@@ -244,6 +245,27 @@ type Target struct {
 	// wrapping of the target), and for a whole-function target it is also what falling off the end
 	// of a result-less body stands for.
 	NakedRetW string
+	// Extensions of iotargets.go (C01, the io.Writer / io.Reader loops): LoopBody (with Stmt selecting a
+	// condition-less `for {` statement): the translated statements are the BODY of that loop, i.e. one
+	// iteration (Rest = the end of the body is reached: the loop goes round again).  IO: opt-in for
+	// multi-result returns as tuples, compound assignments `v += e`, re-slicing `s = s[e:]` of a slice
+	// variable and `if L = e; cond {` over a declared lvalue (see iotargets.go).
+	LoopBody bool
+	IO       bool
+	// CallTrace (calltrace.go): call expression (source text) -> marker appended to the trace
+	// variable `tr` by the statement that evaluates the call.
+	CallTrace map[string]string
+	// SelArms (C11 exit targets, go2v/c11targets.go): opt-in translation of `select` statements.
+	// Go source text of a comm clause's communication (`<-ctx.Done()`, `ch <- v`, `v := <-ch`) ->
+	// Gallina bool "this clause is the one that runs".  Clauses are tried in source order; a
+	// `default` clause (or, without one, SelElse = "no listed clause": blocked for ever) ends the
+	// chain.  A comm clause without an entry is a translation failure.
+	SelArms map[string]string
+	SelElse string
+	// KeepRets: an SHint must not swallow a `return`: a statement matched by an SHint that
+	// contains a return statement is a translation failure (an early return added inside a
+	// dropped logging/statistics block would otherwise be invisible).
+	KeepRets bool
 }
 
 type fnctx struct {
@@ -510,10 +532,19 @@ func (c *fnctx) stmts(list []ast.Stmt, rest string) string {
 		failf("%s: inline-closure hint on a statement that is not a call with one parameterless func literal: %q", c.t.pos(s), stext)
 	}
 	if ok {
+		if c.tg.KeepRets {
+			c.checkNoReturnInside(s) // c11targets.go
+		}
 		if pre == "" {
 			return tail()
 		}
 		return pre + " " + tail()
+	}
+	if out, ok := c.stmtIOExt(list, rest); ok { // iotargets.go (opt-in: Target.IO)
+		return out
+	}
+	if out, ok := c.stmtTrace(list, rest); ok { // calltrace.go
+		return out
 	}
 	if out, ok := c.stmtMap(list, rest); ok { // mapext.go
 		return out
@@ -616,7 +647,11 @@ func (c *fnctx) stmts(list []ast.Stmt, rest string) string {
 			if !ok {
 				failf("%s: unsupported if init %q", c.t.pos(s), c.t.src(s))
 			}
-			c.checkNoShadow(id, list[1:])
+			if c.tg.KeepRets {
+				c.checkNoCaptureSel(id, list[1:]) // c11targets.go: fields and re-declarations are not captures
+			} else {
+				c.checkNoShadow(id, list[1:])
+			}
 			name := coqIdent(id.Name)
 			if r, ok := c.tg.Renames[id.Name]; ok {
 				name = r
@@ -726,6 +761,10 @@ func (c *fnctx) stmts(list []ast.Stmt, rest string) string {
 		return out
 	case *ast.BlockStmt:
 		return c.stmts(append(append([]ast.Stmt{}, x.List...), list[1:]...), rest)
+	case *ast.SelectStmt:
+		if c.tg.SelArms != nil {
+			return c.selectStmt(x, list, rest) // c11targets.go
+		}
 	}
 	failf("%s: unsupported statement %q in %s", c.t.pos(s), c.t.src(s), c.tg.Func)
 	return ""
@@ -874,6 +913,9 @@ func (t *translator) emitFunc(tg *Target, w *bytes.Buffer) {
 		sel = t.findStmt(fd, tg.Stmt, tg.Func)
 		scope = sel
 		selList = []ast.Stmt{sel}
+		if tg.LoopBody {
+			selList, scope = t.loopBodyOf(sel, tg) // iotargets.go
+		}
 		if tg.After {
 			selList = t.stmtsAfter(fd, sel, tg.Func)
 			if tg.Until != "" {
@@ -894,7 +936,12 @@ func (t *translator) emitFunc(tg *Target, w *bytes.Buffer) {
 	}
 	ast.Inspect(scope, func(n ast.Node) bool {
 		switch n.(type) {
-		case *ast.ForStmt, *ast.RangeStmt, *ast.GoStmt, *ast.DeferStmt, *ast.SelectStmt, *ast.SendStmt:
+		case *ast.SelectStmt, *ast.SendStmt:
+			if tg.SelArms != nil {
+				return true // opt-in: select statements as a chain of hinted clauses (c11targets.go)
+			}
+			failf("%s: %s contains a loop/go/defer/select/send: outside the translated subset", t.pos(n), tg.Func)
+		case *ast.ForStmt, *ast.RangeStmt, *ast.GoStmt, *ast.DeferStmt:
 			failf("%s: %s contains a loop/go/defer/select/send: outside the translated subset", t.pos(n), tg.Func)
 		}
 		return true
@@ -929,7 +976,11 @@ func (t *translator) emitFunc(tg *Target, w *bytes.Buffer) {
 				fmt.Fprintf(w, "   up to (not including) the statement that starts with: %s\n", tg.Until)
 			}
 		} else {
-			fmt.Fprintf(w, "   statement at lines %d-%d starting with: %s\n   falling out of it  =>  %s\n", sp.Line, se.Line, tg.Stmt, tg.Rest)
+			what := "statement"
+			if tg.LoopBody {
+				what = "ONE ITERATION (the body) of the loop"
+			}
+			fmt.Fprintf(w, "   %s at lines %d-%d starting with: %s\n   falling out of it  =>  %s\n", what, sp.Line, se.Line, tg.Stmt, tg.Rest)
 		}
 		if tg.Pre != "" {
 			fmt.Fprintf(w, "   prefix: %s\n", tg.Pre)
@@ -969,6 +1020,18 @@ func (t *translator) emitFunc(tg *Target, w *bytes.Buffer) {
 	}
 	if tg.RetFmt != "" {
 		fmt.Fprintf(w, "   every returned value v is  %s\n", strings.ReplaceAll(tg.RetFmt, "%s", "v"))
+	}
+	for _, k := range sortedKeys(tg.CallTrace) {
+		fmt.Fprintf(w, "   traced call: %s  =>  the statement that evaluates it appends %s to tr\n", k, tg.CallTrace[k])
+	}
+	for _, k := range sortedKeys(tg.SelArms) {
+		fmt.Fprintf(w, "   select clause: case %s  =>  runs iff %s\n", k, tg.SelArms[k])
+	}
+	if tg.SelArms != nil && tg.SelElse != "" {
+		fmt.Fprintf(w, "   select without default, no listed clause runs  =>  %s\n", tg.SelElse)
+	}
+	if tg.KeepRets {
+		fmt.Fprintf(w, "   no statement replaced by a stmt-hint contains a return\n")
 	}
 	keys := []string{}
 	for k := range tg.Hints {
@@ -1313,6 +1376,9 @@ func main() {
 		fmt.Printf("go2v: %s.v %d functions\n", f, len(byFile[f]))
 	}
 
+	// GenHelperCensus.v (C10): Close / SendSystemError / Flush calls of the helper layers (helptargets.go)
+	emitHelperCensus(byName, *repo, *out)
+
 	// GenSites.v
 	w.Reset()
 	fmt.Fprintf(&w, header, *repo)
@@ -1341,6 +1407,13 @@ func main() {
 	nw, nf := root.waitSitesSafe(&w, *repo)
 	writeIfChanged(filepath.Join(*out, "GenWaitSites.v"), w.Bytes())
 	fmt.Printf("go2v: GenWaitSites.v %d wait sites in %d functions\n", nw, nf)
+
+	// GenCtxSites.v (C20): every consumer of a context's end with the error it returns (ctxsites.go)
+	w.Reset()
+	fmt.Fprintf(&w, header, *repo)
+	ncx := root.ctxSitesSafe(&w, *repo)
+	writeIfChanged(filepath.Join(*out, "GenCtxSites.v"), w.Bytes())
+	fmt.Printf("go2v: GenCtxSites.v %d context-end branches\n", ncx)
 
 	// GenLockProgs.v (C05): lock programs, mutex table, lock acquisitions of the call path (lockprogs.go)
 	w.Reset()
@@ -1371,6 +1444,13 @@ func main() {
 	writeIfChanged(filepath.Join(*out, "GenLockSites.v"), w.Bytes())
 	fmt.Printf("go2v: GenLockSites.v %d access sites of %d protected fields, %d lock wrappers\n", nls, len(lkFields), nlw)
 
+	// GenSyncPools.v (C04): every sync.Pool and every Get / Put / put-wrapper call site (syncpools.go)
+	w.Reset()
+	fmt.Fprintf(&w, header, *repo)
+	nspd, nsps, nspw := syncPoolSitesSafe(&w, *repo)
+	writeIfChanged(filepath.Join(*out, "GenSyncPools.v"), w.Bytes())
+	fmt.Printf("go2v: GenSyncPools.v %d sync.Pools, %d Get / Put sites, %d put wrappers\n", nspd, nsps, nspw)
+
 	// GenFrameUse.v (C12): uses of a frame relative to its hand-over, per function (frameuse.go)
 	w.Reset()
 	fmt.Fprintf(&w, header, *repo)
@@ -1387,6 +1467,38 @@ func main() {
 	nst, nnt, nwt := root.connFailSites(&w)
 	writeIfChanged(filepath.Join(*out, "GenCtxFlow.v"), w.Bytes())
 	fmt.Printf("go2v: GenCtxFlow.v %d context hand-over sites below %d RunWithRetry attempt functions, %d stopExchanges sites, %d stopExchanges statements, %d watcher calls\n", ncx, ncl, nst, nnt, nwt)
+
+	// GenReqStatePool.v (C17): life cycle of the pooled RequestState: pool sites, uses of the holding variables, reset per field (rspool.go)
+	w.Reset()
+	fmt.Fprintf(&w, header, *repo)
+	nrp, nru, nrf := root.reqStatePoolSafe(&w, *repo)
+	writeIfChanged(filepath.Join(*out, "GenReqStatePool.v"), w.Bytes())
+	fmt.Printf("go2v: GenReqStatePool.v %d pool sites, %d uses of a pooled RequestState, %d fields\n", nrp, nru, nrf)
+
+	// GenReplySites.v (C06): the id expression of every response message the library builds (replyids.go)
+	w.Reset()
+	fmt.Fprintf(&w, header, *repo)
+	fmt.Fprintf(&w, "From Coq Require Import String.\nFrom Verif Require Import Gen.GenConsts Gen.GenReplyIds.\n")
+	nri, nrs0 := root.emitRidSites(&w)
+	nrt := root.emitRidTable(&w)
+	writeIfChanged(filepath.Join(*out, "GenReplySites.v"), w.Bytes())
+	fmt.Printf("go2v: GenReplySites.v %d reply-id site lists, %d not translated, %d rows in the table of id-writing sites\n", nri, nrs0, nrt)
+
+	// GenPoolReset.v (C03): every sync.Pool with the resets between two users of a pooled object (poolreset.go)
+	w.Reset()
+	fmt.Fprintf(&w, header, *repo)
+	fmt.Fprintf(&w, "From Verif Require Import Spec.PoolSpec.\n\n")
+	npl, npg, npp, npf := poolResetSafe(&w, *repo, all)
+	writeIfChanged(filepath.Join(*out, "GenPoolReset.v"), w.Bytes())
+	fmt.Printf("go2v: GenPoolReset.v %d pools, %d Get sites, %d Put sites, %d pooled fields\n", npl, npg, npp, npf)
+
+	// GenMexProg.v (C05): forwardPeerFrame / recvPeerFrame of mex.go as channel programs (chanprog.go)
+	w.Reset()
+	fmt.Fprintf(&w, header, *repo)
+	fmt.Fprintf(&w, "From Coq Require Import List.\nFrom Verif Require Import Spec.ChanProg.\nImport ListNotations.\n")
+	ncp := root.chanProgsSafe(&w)
+	writeIfChanged(filepath.Join(*out, "GenMexProg.v"), w.Bytes())
+	fmt.Printf("go2v: GenMexProg.v %d channel programs\n", ncp)
 
 	// GenTypedBuf.v, GenMessages.v ...: byte-buffer methods and message codecs (methods.go)
 	emitMethodFiles(all, *repo, *out)
